@@ -154,11 +154,15 @@ impl<Meta> Archive<Meta> {
 
         let mut stats = ArchiveStats::default();
 
+        // All chains together cannot have more items than fit the file.
+        let mut guard = ChainGuard::new(&self.file);
+
         // Step 1. Go over each index bucket and collect all the objects.
         // Check that the name hashes correctly.
         for idx in 0.. usize_to_u64(self.meta.bucket_count) {
             let mut start = self.get_index(idx)?;
             while let Some(pos) = start {
+                guard.step()?;
                 let (header, name) = ObjectHeader::read_with_name(
                     &self.file, pos.into()
                 )?;
@@ -178,6 +182,7 @@ impl<Meta> Archive<Meta> {
         // Step 2. Go over the empty space.
         let mut start = self.get_empty_index()?;
         while let Some(pos) = start {
+            guard.step()?;
             let header = ObjectHeader::read(&self.file, pos.into())?;
             objects.push((u64::from(pos), header.size));
             stats.empty_count += 1;
@@ -501,7 +506,9 @@ impl<Meta: ObjectMeta> Archive<Meta> {
     ) -> Result<Option<FoundObject>, ArchiveError> {
         let mut start = self.get_index(hash)?;
         let mut prev = None;
+        let mut guard = ChainGuard::new(&self.file);
         while let Some(pos) = start {
+            guard.step()?;
             let (header, object_name) = ObjectHeader::read_with_name(
                 &self.file, pos.into()
             )?;
@@ -531,7 +538,9 @@ impl<Meta: ObjectMeta> Archive<Meta> {
         }
         let size = Self::page_object_size(name, data);
         let mut candidates = Vec::new();
+        let mut guard = ChainGuard::new(&self.file);
         while let Some(pos) = start {
+            guard.step()?;
             let header = ObjectHeader::read(&self.file, pos.into())?;
             start = header.next;
             if Self::fits(header.size, size) {
@@ -817,6 +826,9 @@ pub struct ObjectsIter<'a, Meta> {
 
     /// The next item in the currently visited bucket.
     next: Option<NonZeroU64>,
+
+    /// The guard against looping chains.
+    guard: ChainGuard,
 }
 
 impl<'a, Meta> ObjectsIter<'a, Meta> {
@@ -826,6 +838,7 @@ impl<'a, Meta> ObjectsIter<'a, Meta> {
             archive,
             buckets: 1..usize_to_u64(archive.meta.bucket_count),
             next: archive.get_index(0)?,
+            guard: ChainGuard::new(&archive.file),
         })
     }
 }
@@ -841,6 +854,7 @@ impl<'a, Meta: ObjectMeta> ObjectsIter<'a, Meta> {
     ) -> Result<Option<(Cow<'a, [u8]>, Meta, Cow<'a, [u8]>)>, ArchiveError> {
         loop {
             if let Some(pos) = self.next {
+                self.guard.step()?;
                 let (next, res) = self.archive.file.read(pos.into(), |read| {
                     let header = ObjectHeader::read_from(read)?;
                     let name = read.read_slice(header.name_len)?;
@@ -894,6 +908,40 @@ pub trait ObjectMeta: Sized {
     ///
     /// This method must try to read exactly `Self::SIZE` bytes.
     fn read(read: &mut StorageRead) -> Result<Self, ArchiveError>;
+}
+
+
+//------------ ChainGuard ----------------------------------------------------
+
+/// Protects walks along object chains against loops in a corrupt file.
+///
+/// Every object of a chain lives at a different position, so a chain can
+/// never be longer than the file allows. If a walk takes more steps, the
+/// `next` pointers must form a loop.
+struct ChainGuard {
+    /// The number of steps still allowed.
+    left: u64,
+}
+
+impl ChainGuard {
+    /// Creates a new guard for chains in the given storage.
+    fn new(storage: &Storage) -> Self {
+        // Every object at the very least has its header.
+        ChainGuard {
+            left: storage.size / ObjectHeader::SIZE + 1
+        }
+    }
+
+    /// Accounts for one step along a chain.
+    fn step(&mut self) -> Result<(), ArchiveError> {
+        match self.left.checked_sub(1) {
+            Some(left) => {
+                self.left = left;
+                Ok(())
+            }
+            None => Err(ArchiveError::Corrupt("loop in object chain"))
+        }
+    }
 }
 
 
